@@ -113,6 +113,20 @@ func main() {
 			os.Exit(2)
 		}
 		scanResets(p)
+	case "scanwrappers":
+		p, err := eng.Load(eng.LoadOpts{})
+		if err != nil {
+			fmt.Println(err)
+			os.Exit(2)
+		}
+		scanWrappers(p)
+	case "scanflags":
+		p, err := eng.Load(eng.LoadOpts{})
+		if err != nil {
+			fmt.Println(err)
+			os.Exit(2)
+		}
+		scanFlags(p)
 	case "scanvisits":
 		p, err := eng.Load(eng.LoadOpts{})
 		if err != nil {
